@@ -582,7 +582,7 @@ func vfAlnum(c uint8) bool {
 
 // vfNameCharOK: printable, non-blank, and not a delimiter of the format (FASTA: '>'; Nexus: the
 // punctuation of its grammar [ ] ; = and quotes; Stockholm: '#', which starts a markup line).
-func vfNameCharOK(c uint8, format int, alnum bool) bool {
+func vfNameCharOK(c uint8, format int, alnum, stkLexDelims bool) bool {
 	if c < 0x21 || c > 0x7e {
 		return false
 	}
@@ -598,18 +598,21 @@ func vfNameCharOK(c uint8, format int, alnum bool) bool {
 	case fNexus:
 		return c != '[' && c != ']' && c != ';' && c != '=' && c != '\'' && c != '"'
 	case fStockholm:
+		if stkLexDelims && (c == '[' || c == ']' || c == ';' || c == '=') {
+			return false
+		}
 		return c != '#'
 	}
 	return true
 }
 
 // vfNames: round trip of a 2 x 4 nucleotide alignment whose first name is symbolic.
-func vfNamesRT(format, maxlen int, alnum bool) {
+func vfNamesRT(format, maxlen int, alnum, stkLexDelims bool) {
 	k := nondetRange(1, maxlen)
 	b := make([]byte, k)
 	for j := range b {
 		b[j] = nondetByte()
-		assume(vfNameCharOK(b[j], format, alnum))
+		assume(vfNameCharOK(b[j], format, alnum, stkLexDelims))
 	}
 	name := string(b)
 	assume(name != "zz9")
@@ -656,12 +659,19 @@ func vfNamesRT(format, maxlen int, alnum bool) {
 // H_C02_names_alnum: names made of letters, digits and '_' survive the round trip in every format.
 // bounds: format in {fasta, phylip relaxed, nexus, clustal, stockholm}; first name = 1..3 symbolic characters of [A-Za-z0-9_], second name "zz9"; 2 x 4 concrete nucleotide rows; Nexus: names spelling a lexer keyword excluded (H_C02_nexus_kwname)
 // outside: longer names, punctuation (H_C02_names_punct), strict Phylip (its writer pads names with fmt's %-10s, which the engine cannot apply to a symbolic string; pool names cover it)
-func H_C02_names_alnum() { vfNamesRT(nondetRange(fFasta, fStockholm), 3, true) }
+func H_C02_names_alnum() { vfNamesRT(nondetRange(fFasta, fStockholm), 3, true, false) }
 
 // H_C02_names_punct: names made of printable punctuation (without the format's own delimiters) survive the round trip.
 // bounds: same formats; first name = 1..2 symbolic printable non-alphanumeric characters, excluding '>' (FASTA), [ ] ; = ' " (Nexus), '#' and the name "//" (Stockholm)
 // outside: longer names, blanks, bytes >= 0x80
-func H_C02_names_punct() { vfNamesRT(nondetRange(fFasta, fStockholm), 2, false) }
+func H_C02_names_punct() { vfNamesRT(nondetRange(fFasta, fStockholm), 2, false, false) }
+
+// H_C02_names_punct_nostk: second variant of H_C02_names_punct: additionally excludes, for Stockholm, the
+// characters [ ] ; = that its lexer (copied from the Nexus one) treats as token separators although they mean
+// nothing in Stockholm; shows that this is the only defect in these bounds.
+// bounds: as H_C02_names_punct, Stockholm names without [ ] ; =
+// outside: Stockholm names with [ ] ; = (covered, and failing, in H_C02_names_punct)
+func H_C02_names_punct_nostk() { vfNamesRT(nondetRange(fFasta, fStockholm), 2, false, true) }
 
 // H_C02_nexus_kwname: a sequence name that spells a Nexus lexer keyword (any case) does not survive the round trip.
 // bounds: first name in {end, GAP, Data, matrix}, second name s1; 2 x 4 concrete nucleotide rows
